@@ -136,6 +136,30 @@ func genC11(p *plan.Plan, r *plan.Rng, tier string) {
 	case 2:
 		addHandleGroups(p, r, &next, 1, 1, 0)
 	}
+	// one Encoder used by several sessions, some of whose Encode calls fail
+	// (marshaler errors and panics, cyclic and unsupported values): an Encoder
+	// reused after an error behaves like a fresh one
+	if r.Chance(1, 4) {
+		mk := plan.Step{Op: "enc_new", H: "ENC", Shared: true}
+		if r.Chance(1, 2) {
+			mk.S1 = prefixes[r.Intn(len(prefixes))]
+			mk.S2 = indents[1+r.Intn(len(indents)-1)]
+		}
+		if r.Chance(1, 3) {
+			mk.Opts = []string{"nohtml"}
+		}
+		for k := r.Range(2, 5); k > 0; k-- {
+			st := plan.Step{Op: "enc_encode", H: "ENC", Shared: true, T: pickType(r, encodeTypes), V: valueSeed(r, 1, 3)}
+			if r.Chance(1, 8) {
+				st.Opts = append(st.Opts, "cyclic")
+			}
+			if r.Chance(1, 4) {
+				st.Op = "enc_encode_ctx"
+				st.S1 = "shared-enc"
+			}
+			p.Sessions = append(p.Sessions, plan.Session{ID: id("S"), Steps: []plan.Step{mk, st}})
+		}
+	}
 	// the same long object graph encoded again after an encode of it failed
 	// half-way (a value handle shared by two sessions)
 	if r.Chance(1, 5) {
